@@ -4,11 +4,15 @@
 //verif:assume reference convention (docs/blake2.md and the checked-in testdata): unlimited fanout (fanout 0, max depth 2, inner hash size 64, leaf size L); full leaf i (0-based) is hashed at depth 0 with node offset i+1; a trailing partial leaf is hashed with node offset = number of full leaves and the last-node flag; the key is the depth-1, offset-0, last-node hash of the leaf keys in order
 //verif:assume leaf sizes 2..4 bytes injected below cafs.New's guard (the code is parametric in the leaf size); content up to 2 leaves + 1 byte (thorough 3 leaves + 1), every byte symbolic; every chunking (one big write or two solver-sized chunks); 1..2 concurrent flushes; key prefix empty or non-empty; where the store reports CRC32C checksums the content is concrete (whole-buffer CRC over symbolic bytes is out of the solvers' reach)
 //verif:cover VerifC02Key multi-leaf exact-multiple empty partial-tail
+//verif:assume many leaves: leaf size 2, contents of 33..37 bytes (17..19 leaves: beyond one 16-key batch of the root hasher), the bytes of the first, the 16th and the 17th leaf symbolic, the others a fixed pattern
+//verif:cover VerifC02ManyLeaves seventeen-leaves partial-tail
 //verif:cover VerifC02Dedup duplicate-found emptied-blob-rewritten crc-mismatch-rewritten different-content prefixed
 package cafs
 
 import (
+	"bytes"
 	"context"
+	"io"
 
 	blake2b "github.com/minio/blake2b-simd"
 )
@@ -80,6 +84,48 @@ func VerifC02Key() {
 	if n == 0 {
 		vCover("empty")
 	}
+}
+
+// VerifC02ManyLeaves: the root hash covers every leaf key, also beyond the first sixteen.
+func VerifC02ManyLeaves() {
+	vTerminates()
+	vBudget(60000000)
+	L := uint32(2)
+	n := 33 + vChoose("extra", 5) // 33..37 bytes: 17..19 leaves
+	content := make([]byte, n)
+	for i := range content {
+		content[i] = byte(13*i + 5)
+	}
+	for _, p := range []int{0, 1, 30, 31, 32, 33} {
+		if p < n {
+			content[p] = vByte("c", 0, 255)
+		}
+	}
+	store := newVStore("blob")
+	fs := vNewFs(store, L, vChoose("flushes", 2)+1, 0)
+	var src io.Reader = bytes.NewReader(content) // one big write
+	if k := vChoose("chunking", 4); k > 0 {
+		src = &vChunkSrc{b: content, sizes: []int{[]int{1, 3, 32}[k-1], []int{31, 2, 1}[k-1], 1000}}
+	}
+	res, err := fs.Put(context.Background(), src)
+	vAssert(err == nil, "put-no-error")
+	want, leaves := vRefKey(content, L)
+	if len(leaves) == 17 {
+		vCover("seventeen-leaves")
+	}
+	if n%2 == 1 {
+		vCover("partial-tail")
+	}
+	vAssert(res.Key == want, "key-is-the-reference-tree-hash")
+	vAssert(len(res.Keys) == len(leaves)*KeySize, "leaf-key-count")
+	// a content differing in the 17th leaf only gets another key
+	other := append([]byte{}, content...)
+	other[32] ^= 1
+	fs2 := vNewFs(store, L, 1, 0)
+	res2, err := fs2.Put(context.Background(), &vChunkSrc{b: other})
+	vAssert(err == nil, "put-no-error")
+	vAssert(res2.Key != res.Key, "contents-differing-in-a-late-leaf-get-different-keys")
+	vAssert(!res2.Found, "different-content-is-not-reported-as-a-duplicate")
 }
 
 // VerifC02Dedup: storing content that is already present returns the same key, reports a duplicate and leaves
